@@ -163,7 +163,7 @@ def finish(ctx: Context, t0: float, seed: int, selftest: dict | None = None) -> 
         print(f"KNOWN-FINDING: property={ctx.prop} {k.get('what', o.what)} "
               f"[{o.rule} {o.construct}]")
 
-    evdir = os.path.join(VERIF_DIR, "evidence")
+    evdir = os.environ.get("LSA_EVIDENCE_DIR") or os.path.join(VERIF_DIR, "evidence")
     os.makedirs(evdir, exist_ok=True)
     replay = os.path.join(evdir, f"{ctx.prop}.violations.json")
     if violations:
